@@ -23,7 +23,7 @@ from __future__ import annotations
 import ast
 
 from .. import sym
-from ..model import AnalysisError, as_increment, Program, attr_chain, bind_args, norm_stmt
+from ..model import AnalysisError, as_increment, inline_single_defs, Program, attr_chain, bind_args, norm_stmt
 from ..paths import Arr, Const, Engine, Hooks, Opaque, Seq, State, vkey
 from ..report import Result
 from ..selftest import Variant
@@ -291,16 +291,16 @@ def _correction(prog: Program, res: Result):
             if ast.unparse(it) == P and isinstance(lp.target, ast.Name):
                 # L.append(E)
                 apps = [c for c in ast.walk(lp) if isinstance(c, ast.Call) and isinstance(c.func, ast.Attribute) and c.func.attr == "append" and len(c.args) == 1 and isinstance(c.func.value, ast.Name)]
-                if len(apps) == 1 and len(lp.body) == 1:
-                    elem_expr, elem_var, node_ = apps[0].args[0], lp.target.id, apps[0]
+                if len(apps) == 1 and all(isinstance(b_, (ast.Assign, ast.Expr)) for b_ in lp.body):
+                    elem_expr, elem_var, node_ = inline_single_defs(fn, apps[0].args[0]), lp.target.id, apps[0]
                     returned_ok = isinstance(rv, ast.Name) and rv.id == apps[0].func.value.id
             elif isinstance(it, ast.Call) and attr_chain(it.func) == "enumerate" and len(it.args) == 1 and ast.unparse(it.args[0]) == P \
                     and isinstance(lp.target, ast.Tuple) and len(lp.target.elts) == 2 and all(isinstance(e_, ast.Name) for e_ in lp.target.elts):
                 iv_, gv_ = lp.target.elts[0].id, lp.target.elts[1].id
                 sts = [s_ for s_ in lp.body if isinstance(s_, ast.Assign) and len(s_.targets) == 1 and isinstance(s_.targets[0], ast.Subscript)
                        and isinstance(s_.targets[0].value, ast.Name) and ast.unparse(s_.targets[0].slice) == iv_]
-                if len(sts) == 1 and len(lp.body) == 1:
-                    elem_expr, elem_var, node_ = sts[0].value, gv_, sts[0]
+                if len(sts) == 1 and all(isinstance(b_, ast.Assign) for b_ in lp.body):
+                    elem_expr, elem_var, node_ = inline_single_defs(fn, sts[0].value), gv_, sts[0]
                     returned_ok = isinstance(rv, ast.Name) and rv.id == sts[0].targets[0].value.id
     if elem_expr is None:
         raise AnalysisError(f"{q}: per-value correction not understood")
